@@ -597,6 +597,8 @@ class sptensor:
         [1] = 0.5
         [2] = 1.5
         """
+        if not (0 <= i_0 < self.ndims and 0 <= i_1 < self.ndims):
+            assert False, "Modes to contract must be in [0, self.ndims)"
         if self.shape[i_0] != self.shape[i_1]:
             assert False, "Must contract along equally sized dimensions"
 
